@@ -413,6 +413,23 @@ def dotDispatch (ka kb : Kind) (caDefault : CA) (aBigger : Bool) (rt : RT) : Opt
   | .nd, .nd => some { kernel := .npDot, orient := .plain, resultCA := none, prune := false, post := .none }
   | _, _ => none
 
+/-- the array type a kernel's output is wrapped into -/
+def Kernel.outKind : Kernel → RT
+  | .csrCsr | .csrNdSparse | .cscNdSparse => .gcxs
+  | .cooCoo | .cooNdSparse | .ndCooSparse => .coo
+  | .csrNd | .cscNd | .cooNd | .ndCoo | .npDot => .nd
+/-- the array type `_dot` finally returns under a plan -/
+def Plan.outKind (p : Plan) : RT :=
+  match p.post with
+  | .none => p.kernel.outKind
+  | .todense => .nd
+  | .tocoo => .coo
+  | .asGcxs => .gcxs
+/-- kernels that write an entry without testing its value (a cancelling sum is written as 0) -/
+def Kernel.writesZeros : Kernel → Bool
+  | .csrCsr | .csrNdSparse | .cooCoo => true
+  | _ => false
+
 /-! ### `tensordot` axis bookkeeping -/
 
 /-- `[k for k in range(nd) if k not in axes]` -/
